@@ -339,7 +339,7 @@ pub fn log_count(key: &str, inv: usize, phase: &str) -> u64 {
 
 /// Free text after a log token: separators the integration uses internally (`__`), quotes, `=`.
 pub fn log_tail(j: u64) -> &'static str {
-    ["", " user__id=7 __init__", " a \"quoted\" field=1", " trailing__"][(j % 4) as usize]
+    ["", " user__id=7 __init__", " a \"quoted\" field=1", " trailing__", " first line\n  second line of the same event"][(j % 5) as usize]
 }
 
 pub async fn callback(key: String, world: Option<&mut W>, reason: Option<Reason>, args: Option<String>) {
